@@ -1,5 +1,7 @@
 import L21.Model.Dep
 import L21.Model.RawProto
+import L21.Model.Place
+import L21.Model.RawGds
 /-
 C17 / C14 / C19 — a listing that already has dependencies first is a FIXED POINT of the orderers.
 
@@ -64,6 +66,21 @@ theorem c17_sorted_listing_is_kept (adj : Nat → List Nat) (f : Nat) (items : L
 example : order (adjOf [[], [0], [1, 0]]) 4 [0, 1, 2] = .ok [0, 1, 2] :=
   c17_sorted_listing_is_kept _ 2 _ (by decide) (by decide)
 
+/-- the form every embedded orderer uses: nodes `0 … n-1` listed in index order, every dependency a smaller index -/
+theorem c17_range_sorted (adj : Nat → List Nat) (n : Nat) (h : ∀ i, i < n → ∀ d ∈ adj i, d < i) :
+    order adj (n + 1) (List.range n) = .ok (List.range n) := by
+  cases n with
+  | zero => simp [order, pushAll]
+  | succ m =>
+    have := c17_sorted_listing_is_kept adj m (List.range (m + 1)) List.nodup_range (by
+      intro i hi d hd
+      simp only [List.length_range] at hi
+      simp only [List.getElem_range] at hd
+      have hlt := h i hi d hd
+      rw [List.take_range, List.mem_range]
+      exact Nat.lt_min.2 ⟨hlt, by omega⟩)
+    simpa using this
+
 end L21.Dep
 
 namespace L21.RawProto
@@ -106,3 +123,14 @@ theorem c14_reexport_keeps_cell_order (tbl : LayerTbl) (l : Lib) (h : ListedBefo
   cases exportCells tbl l.cells <;> rfl
 
 end L21.RawProto
+
+namespace L21.Place
+
+/-- C09 / C17: a placement program whose relative placements all refer to EARLIER instances is resolved in its
+    listing order (the placer's dependency order is the listing itself). -/
+theorem c09_sorted_program_in_listing_order (cells : List (Int × Int)) (insts : List Inst)
+    (h : ∀ i, i < insts.length → ∀ d ∈ adj insts i, d < i) :
+    run cells insts = placeAll cells insts (List.range insts.length) [] := by
+  unfold run; rw [Dep.c17_range_sorted (adj insts) insts.length h]
+
+end L21.Place
